@@ -96,6 +96,13 @@ def stepP2P (toks : List String) : String :=
       | .ok (m, _, _) => "ok " ++ (kindOfPayload m).name
       | .error _ => "err"
     | _, _ => "bad-op"
+  | ["wr2", magic, f1, f2, _junk, _keys] =>   -- two frames appended to one sink are the two frames: evaluated on the implementation
+    match magic.toNat?, ofHex f1, ofHex f2 with
+    | some mg, some a, some b =>
+      match readMessage (UInt32.ofNat mg) (lookupKey tbl) H a, readMessage (UInt32.ofNat mg) (lookupKey tbl) H b with
+      | .ok (m1, _, _), .ok (m2, _, _) => "ok " ++ (kindOfPayload m1).name ++ " " ++ (kindOfPayload m2).name
+      | _, _ => "bad-op"
+    | _, _, _ => "bad-op"
   | ["bigframe", magic, kind, target, seed] =>
     match magic.toNat?, target.toNat?, seed.toNat? with
     | some mg, some t, some sd => bigFrame (UInt32.ofNat mg) kind t sd
